@@ -63,6 +63,15 @@ def parse_how(data, how):
             p.feed_byte(b)
             out.extend(p)
         return out
+    if how == 'intsub':
+        from lib.vals import _IntSub
+        return mido.parse_all([_IntSub(b) for b in data])
+    if how == 'enum':
+        from checks.c04_parser_sound import _BYTE_ENUM
+        p = mido.Parser()
+        for b in data:
+            p.feed_byte(_BYTE_ENUM(b))
+        return list(p)
     if how == 'bytewise-late':
         p = mido.Parser()
         for b in data:
@@ -71,7 +80,7 @@ def parse_how(data, how):
     return mido.parse_all(list(data))
 
 
-HOWS = ('list', 'bytes', 'generator', 'iter', 'bytewise', 'bytewise-late')
+HOWS = ('list', 'bytes', 'generator', 'iter', 'bytewise', 'bytewise-late', 'intsub', 'enum')
 
 
 def check_prefix(prefix, d, how='list'):
@@ -174,7 +183,9 @@ def prefix_shard(rec, shard):
     first, maxlen = shard
     msgs = [d for t in R.ALL_TYPES for d in two_settings(t)]
     for n in range(0, maxlen):
-        for tail in itertools.product(S.CLASS_ALPHABET, repeat=n):
+        for ti, tail in enumerate(itertools.product(S.CLASS_ALPHABET, repeat=n)):
+            if not rec.keep(ti, 7):
+                continue
             prefix = [first, *tail]
             try:
                 base = mido.parse_all(prefix)
@@ -223,7 +234,16 @@ def main(ctx):
     for how in HOWS:
         ctx.check({'kind': 'volume', 'n': 3000, 'how': how}, sample=False)
     for how in ('list', 'bytes', 'bytewise-late'):
-        ctx.check({'kind': 'volume', 'n': 40000, 'how': how}, sample=False)
+        ctx.check({'kind': 'volume', 'n': 140000 if how != 'bytewise-late' else 70000, 'how': how}, sample=False)
+    # real-time bytes of every type inside a sysex whose bytes are int subclasses / enum members
+    for how in ('intsub', 'enum'):
+        for L in (0, 1, 3):
+            payload = list(range(1, L + 1))
+            for pos in range(1, L + 2):
+                for b in RT_BYTES:
+                    ctx.check({'kind': 'rt', 'payload': payload, 'inserts': [[pos, b]], 'how': how}, sample=False)
+    big = [(i * 11) % 128 for i in range(70000)]
+    ctx.check({'kind': 'rt', 'payload': big, 'inserts': [[1, 0xF8], [35000, 0xFA], [70000, 0xFC]], 'how': 'bytes'}, sample=False)
     # real-time inside sysex: exhaustive one and two insertions
     maxpay = 8 if ctx.tier == 'thorough' else 5
     for L in range(0, maxpay + 1):
